@@ -11,6 +11,8 @@ import FloVerif.Gen.Length
 import FloVerif.Gen.Total
 import FloVerif.Gen.PointInPath
 import FloVerif.Model.Total
+import FloVerif.Gen.SelfIntersect
+import FloVerif.Model.SelfIntersect
 /-!
 Correspondence for C20: the generated definitions the finiteness theorems of `Props/C20.lean` are about, evaluated
 * at `Float` (bit mirror of the Rust arithmetic) and
@@ -277,6 +279,32 @@ def handle (op stream : String) (ins outs : List String) : List Out :=
     -- ins: v(2); outs: unit(2) magnitude
     chk2 false "to_unit_vector" (to_unit_vector (ptX iv 0)) (to_unit_vector (ptF iv 0)) ov 0 ++
     [chk false "magnitude" (some (magnitude (ptX iv 0))) (magnitude (ptF iv 0)) (o 2)]
+  | "selfint" =>
+    -- ins: w(8) accuracy la lb ra rb #k (u1 u2)*; outs: #flag t1 t2 (flag 0 none, 1 some, 2 panic).  The clipper's answer on the
+    -- two terminal halves is the implementation's own (`curve_intersects_curve_clip` on sections of sections is outside the generated
+    -- clipper's control-point interface); the recursion, the categories of the halves, the choice among the clipper's pairs and
+    -- the mapping back through `t_for_t` are the generated code's, compared bit for bit
+    let acc := (iv.getD 8 default).f
+    let tv := ((iv.drop 9).take 4).map (·.bits)
+    let pairs : List (T2 Float Float) := (chunk 2 (iv.drop 13)).map (fun p => T2.mk (p.getD 0 default).f (p.getD 1 default).f)
+    let nan : Float := 0.0 / 0.0
+    let clipF : SectionT Float → SectionT Float → Float → List (T2 Float Float) := fun l r _ =>
+      let lt := section_original_curve_t_values l
+      let rt := section_original_curve_t_values r
+      if [lt.t0.toBits, lt.t1.toBits, rt.t0.toBits, rt.t1.toBits] == tv then pairs else [T2.mk nan nan]
+    let m := Model.SelfIntersect.findSelfIntersection clipF (some (T2.mk 2.0 2.0)) (some (T2.mk 3.0 3.0)) 4000 (wF 0) (wF 1) (wF 2) (wF 3) acc
+    let flag := onat.getD 0 0
+    let bit (name : String) (mf : Float) (i : FV) : Out :=
+      if mf.toBits == i.bits then { field := name, cmp := .same 0, fbit := some true }
+      else { field := name, cmp := .diff s!"generated code={mf} impl={i.f}", fbit := some false }
+    match m, flag with
+    | none, 0 => [good "selfint.none"]
+    | some r, 2 => if r.t0 == 2.0 && r.t1 == 2.0 then [good "selfint.unimplemented"] else [bad "selfint.unimplemented" s!"impl panics, generated code: ({r.t0}, {r.t1})"]
+    | some r, 1 =>
+      if r.t0 == 2.0 && r.t1 == 2.0 then [bad "selfint.some" "generated code reaches the (Loop, Loop) arm, impl returns a pair"]
+      else if r.t0 == 3.0 && r.t1 == 3.0 then [bad "selfint.some" "generated code out of fuel (4000 levels)"]
+      else [bit "selfint.t1" r.t0 (o 0), bit "selfint.t2" r.t1 (o 1)]
+    | _, _ => [bad "selfint.some/none" s!"generated code={if m.isSome then "some" else "none"} impl flag={flag}"]
   | _ => [{ field := "unknown-op " ++ op, cmp := .diff "driver does not know this operation", fbit := none }]
 
 end Driver.C20
